@@ -384,7 +384,12 @@ SameBlocks(x, y) ==
   /\ \A j \in 1..Len(y.blocks) : ~HasSector(x, y.blocks[j].s) =>
         \A q \in 1..Len(y.blocks[j].data) : y.blocks[j].data[q] = VZero
 SameValue(x, y) ==
-  IF IsArray(x) /\ IsArray(y) THEN Den(x) = Den(y) /\ Labels(x) = Labels(y) /\ x.kind = y.kind /\ x.sym = y.sym
+  IF IsArray(x) /\ IsArray(y)
+  THEN \* the same tensor: elements, charge, directions, labels; tables may differ in charges no element uses
+       /\ Elem(x) = Elem(y) /\ x.charge = y.charge /\ Duals(x) = Duals(y)
+       /\ Labels(x) = Labels(y) /\ x.kind = y.kind /\ x.sym = y.sym
+       /\ \A i \in 1..Rank(x) : \A c \in CmChargeSet(x.ix[i]) \cap CmChargeSet(y.ix[i]) :
+             SizeOf(x.ix[i], c) = SizeOf(y.ix[i], c)
   ELSE IF IsScalar(x) /\ IsScalar(y) THEN x.v = y.v
   ELSE IF IsVector(x) /\ IsVector(y) THEN VecElem(x) = VecElem(y)
   ELSE IF IsDense(x) /\ IsDense(y) THEN x.shape = y.shape /\ x.data = y.data
@@ -422,7 +427,10 @@ PseudoFails(ev, pre) ==
        [] ev.args.how = "blocks" -> IF AllExact(x) /\ AllExact(y) THEN F(SameBlocks(x, y) /\ Labels(x) = Labels(y), c) ELSE {}
        [] ev.args.how = "norm2" ->
             \* x : scalar, y : array;  x = sum |y|^2
-            IF IsScalar(x) /\ x.exact /\ AllExact(y) THEN F(x.v = <<Norm2(Elem(y)), 0>>, c) ELSE {}
+            IF IsScalar(x) /\ x.exact /\ AllExact(y) THEN F(x.v = <<Norm2(Elem(y)), 0>>, c)
+            ELSE IF IsArray(x) /\ Rank(x) = 0 /\ AllExact(x) /\ AllExact(y)
+            THEN F(ValAt(Elem(x), <<>>) = <<Norm2(Elem(y)), 0>>, c)
+            ELSE {}
        [] ev.args.how = "true" -> F(x.t = "bool" /\ x.v = TRUE, c)
        [] ev.args.how = "all_or_none" ->
             \* args.present[i]: did the i-th call return (TRUE) or raise (FALSE)
